@@ -159,7 +159,7 @@ Proof. exact Tp_proofs.shutdown_wait_drains_refuted. Qed.
 Print Assumptions C20_tp_shutdown_wait_drains_refuted_without_check.
 
 (* ---------------- the hypotheses are satisfiable by non-trivial states ---------------- *)
-Definition ex_cfg : Stw.cfg := Stw.mkcfg 1 true true true.
+Definition ex_cfg : Stw.cfg := Stw.mkcfg 1 true true true true.
 (* one task running, one queued, a third submitter call blocked on the full queue, then iwstw_shutdown(false) with the
    re-check: the woken call is refused, the worker is joined *)
 Definition ex_trace : list (tid * ev) :=
